@@ -122,7 +122,7 @@ func (c *Ctx) headOnlyRelease() {
 		for _, s := range c.P.Callers(rm) {
 			p := s.Parent()
 			callers = append(callers, p.Name())
-			if p != acked && !(c.onlyCalledFrom(p, acked) && recvNamed(p) == "Ackqueue") {
+			if p != acked && !((c.onlyCalledFrom(p, acked) || c.calledFromSelfAnd(p, acked)) && recvNamed(p) == "Ackqueue") {
 				okCallers = false
 			}
 		}
@@ -176,6 +176,10 @@ func (c *Ctx) headOnlyRelease() {
 				}
 			}
 		}
+	}
+	var backBlocks map[*ssa.BasicBlock]bool
+	if loop == nil {
+		loop, backBlocks = recursionAsLoop(acked)
 	}
 	if loop == nil {
 		c.R.Bad(ruleP4, "Acked:release-loop", c.P.Pos(acked.Pos()), "Acked has no loop that removes released entries")
@@ -251,7 +255,7 @@ func (c *Ctx) headOnlyRelease() {
 					continue
 				}
 				seen[b] = true
-				if b == loop.Header {
+				if loop.Header != nil && b == loop.Header || backBlocks[b] {
 					leaves = false
 				}
 				stack = append(stack, b.Succs...)
@@ -812,7 +816,7 @@ func (c *Ctx) ackedDrainHost() *ssa.Function {
 	}
 	cands := []*ssa.Function{acked}
 	for _, call := range ir.Calls(acked) {
-		if f := call.Common().StaticCallee(); f != nil && recvNamed(f) == "Ackqueue" && f != rm && c.onlyCalledFrom(f, acked) {
+		if f := call.Common().StaticCallee(); f != nil && recvNamed(f) == "Ackqueue" && f != rm && (c.onlyCalledFrom(f, acked) || c.calledFromSelfAnd(f, acked)) {
 			cands = append(cands, f)
 		}
 	}
@@ -827,5 +831,62 @@ func (c *Ctx) ackedDrainHost() *ssa.Function {
 			}
 		}
 	}
+	// the drain written as recursion: remove the head, then call itself for the new head
+	for _, f := range cands {
+		if f == acked || len(selfCalls(f)) == 0 {
+			continue
+		}
+		for _, b := range f.Blocks {
+			for _, in := range b.Instrs {
+				if isRm(in) {
+					return f
+				}
+			}
+		}
+	}
 	return acked
+}
+
+// selfCalls: the calls of f in f.
+func selfCalls(f *ssa.Function) []ssa.CallInstruction {
+	var out []ssa.CallInstruction
+	for _, call := range ir.Calls(f) {
+		if call.Common().StaticCallee() == f {
+			out = append(out, call)
+		}
+	}
+	return out
+}
+
+// calledFromSelfAnd: every call of fn is in fn itself or in caller, and caller does call it.
+func (c *Ctx) calledFromSelfAnd(fn, caller *ssa.Function) bool {
+	fromCaller := false
+	for _, s := range c.P.Callers(fn) {
+		switch s.Parent() {
+		case caller:
+			fromCaller = true
+		case fn:
+		default:
+			return false
+		}
+	}
+	return fromCaller
+}
+
+// recursionAsLoop: a function that ends an activation by calling itself seen as a loop: all its blocks, with the
+// blocks of the self calls standing for the back edge.
+func recursionAsLoop(f *ssa.Function) (*ir.Loop, map[*ssa.BasicBlock]bool) {
+	sc := selfCalls(f)
+	if len(sc) == 0 {
+		return nil, nil
+	}
+	l := &ir.Loop{Header: nil, Blocks: map[*ssa.BasicBlock]bool{}}
+	for _, b := range f.Blocks {
+		l.Blocks[b] = true
+	}
+	back := map[*ssa.BasicBlock]bool{}
+	for _, call := range sc {
+		back[call.Block()] = true
+	}
+	return l, back
 }
